@@ -39,9 +39,9 @@ ASSUMES = [
 
 IMPORTS = ["From PV Require Import Model.Sent Model.Cvxpy Model.Cert Gen.PostSolve Proofs.C14Run."]
 RUN = ("fun t => match t with "
-       "| inl (np, obj, tracked, temp, G, F, M, wc, tol, W) => run_case_heuristic np obj tracked temp G F M wc tol W "
+       "| inl (np, obj, tracked, ids, temp, G, F, M, wc, tol, W) => run_case_heuristic np obj tracked ids temp G F M wc tol W "
        "| inr (h, mode, niter, unb) => run_events h mode niter unb end")
-INPUT_TYPE = ("((nat * edict * sent * list dval * list (list Q) * list Q * list (list (list Q)) * Q * Q * list (list Q))"
+INPUT_TYPE = ("((nat * edict * sent * list nat * list dval * list (list Q) * list Q * list (list (list Q)) * Q * Q * list (list Q))"
               " + (string * string * option Z * bool))")
 TOL = 0.25
 
@@ -58,7 +58,6 @@ def run_case(spec, heuristic, mode, unbounded=False):
     from PEPit import Point, Expression
     pep, P, X = L.build_pep(spec)
     Wcls = L.make_wrapper_class()
-    pts = np.array(spec["pts"], dtype=float)
 
     def script(w, k):
         duals = L.synthetic_duals(w.prob, spec["dual_seed"], k)
@@ -66,8 +65,9 @@ def run_case(spec, heuristic, mode, unbounded=False):
         for c, v in zip(cons, duals):
             c.save_dual_value(v)
         scale = 1.0 if k == 0 else 0.5
+        pts = L.full_pts(spec, w.G.shape[0])
         w.optimal_G = scale * (pts.T @ pts)
-        w.optimal_F = np.array(spec["fvals"], dtype=float) / 4.0
+        w.optimal_F = L.full_fvals(spec, w.F.shape[0])
         wc = None if (unbounded and k == 0) else w.optimal_F[pep.objective.counter]
         return dict(wc_value=wc, duals=duals, constraints=cons, objective=w.prob.objective, prob=w.prob)
 
@@ -133,12 +133,13 @@ def run_case(spec, heuristic, mode, unbounded=False):
             one = [v for k, v in d.items() if not isinstance(k, tuple) and not hasattr(k, "decomposition_dict")]
             tau = Q(float(one[0]) if one else 0.0)
         impl = [rows0, obj0, rows1, [1, [[Q(float(x)) for x in row] for row in W1]],
-                [L.dump_dval(o.eval_dual()) for o in tracked], L.dump_dval(pep.residual),
+                [L.dump_exposed(o) for o in tracked], L.dump_dval(pep.residual),
                 T.dump_edict(rec.last, pid, xid), tau]
         obj = T.dump_edict(pep.objective.decomposition_dict, pid, xid)
         Wmodel = np.identity(Point.counter) if heuristic == "trace" else W1
-        coq_in = "inl (%s, %s, %s, %s, %s, %s, %s, %s, %s, %s)" % (
+        coq_in = "inl (%s, %s, %s, %s, %s, %s, %s, %s, %s, %s, %s)" % (
             coq_nat(Point.counter), L.coq_edict_from_dump(obj), L.coq_sent(items),
+            coq_list([coq_nat(k) for k in L.object_ids(wrapper)]),
             coq_list([L.coq_dval(v) for v in first["duals"]]),
             L.coq_qmat(G), coq_list([coq_q(float(x)) for x in F]), coq_list([L.coq_qmat(M) for M in Ms]),
             coq_q(wc0), coq_q(TOL), L.coq_qmat(Wmodel))
